@@ -157,3 +157,52 @@ def model_run(programs: list[tuple[dict, str, list[dict]]], with_data: bool = Fa
         else:
             res.append(json.loads(o))
     return res
+
+
+def sql_shape(text: str) -> dict:
+    """clause shape of the outermost SELECT of a rendered query: LIMIT / OFFSET values and which of
+    WHERE / GROUP BY / HAVING / ORDER BY occur at nesting depth 0 (string literals and parenthesised
+    parts are blanked first)"""
+    import re
+
+    out, depth, i, n = [], 0, 0, len(text)
+    while i < n:
+        ch = text[i]
+        if ch == "'":
+            j = i + 1
+            while j < n:
+                if text[j] == "'" and j + 1 < n and text[j + 1] == "'":
+                    j += 2
+                    continue
+                if text[j] == "'":
+                    break
+                j += 1
+            i = j + 1
+            if depth == 0:
+                out.append("''")
+            continue
+        if ch == "(":
+            depth += 1
+        elif ch == ")":
+            depth -= 1
+        elif depth == 0:
+            out.append(ch)
+        i += 1
+    flat = " ".join("".join(out).split())
+    m = re.search(r"\bLIMIT (-?\d+) OFFSET (-?\d+)\s*$", flat)
+    return dict(limit=int(m.group(1)) if m else None, offset=int(m.group(2)) if m else None,
+                where=bool(re.search(r"\bWHERE\b", flat)), having=bool(re.search(r"\bHAVING\b", flat)),
+                group_by=bool(re.search(r"\bGROUP BY\b", flat)), order_by=bool(re.search(r"\bORDER BY\b", flat)))
+
+
+def shape_diff(model_shape: dict | None, text: str) -> str | None:
+    if not model_shape:
+        return None
+    real = sql_shape(text)
+    for k in ("limit", "offset"):
+        if model_shape.get(k) != real[k]:
+            return f"{k}: model {model_shape.get(k)} vs query text {real[k]}"
+    for k in ("where", "having", "group_by", "order_by"):
+        if bool(model_shape.get(k)) != real[k]:
+            return f"{k} clause: model {model_shape.get(k)} vs query text {real[k]}"
+    return None
